@@ -29,8 +29,12 @@ import (
 const (
 	bscName    = "bscchainb"
 	bscChainID = 56
-	bscGas     = 30_000_000
 )
+
+// bscGas is the gas limit of the trusted header and of every valid header built on it. It is 30M except in the
+// low-gas scenario of C17, where the parent's gas limit is so close to the 5000 minimum that a header below the
+// minimum is still within the allowed step from its parent.
+var bscGas uint64 = 30_000_000
 
 var bscUncleHash = ethtypes.CalcUncleHash(nil)
 
@@ -243,7 +247,7 @@ func (sc bscScenario) genesis() (bsctypes.Header, []int) {
 }
 
 // build replays a history through the client keeper on a fresh branch; it returns the context and the latest header.
-func (sc bscScenario) build(c *world.Chain, hist []bscSpec) (sdk.Context, bsctypes.Header) {
+func (sc bscScenario) build(c *world.Chain, hist []bscSpec) (sdk.Context, bsctypes.Header, error) {
 	ctx := c.ReadCtx(time.Unix(1_600_000_100, 0))
 	ck := c.App.TIBCKeeper.ClientKeeper
 	gen, vals := sc.genesis()
@@ -258,11 +262,11 @@ func (sc bscScenario) build(c *world.Chain, hist []bscSpec) (sdk.Context, bsctyp
 	for _, s := range hist {
 		h := s.build(parent)
 		if err := ck.UpdateClient(ctx, bscName, h); err != nil {
-			panic(fmt.Sprintf("history header %s refused: %v", s.Label, err))
+			return ctx, parent, fmt.Errorf("header %q, accepted when this history was explored, is refused when the history is replayed on a fresh state branch: %v", s.Label, err)
 		}
 		parent = *h
 	}
-	return ctx, parent
+	return ctx, parent, nil
 }
 
 // menu lists the judged inputs in state st.
@@ -330,6 +334,7 @@ func (sc bscScenario) menu(st bscState) []bscSpec {
 	c("gas-limit-at-lower-bound", func(s *bscSpec) { s.GasLimit = bscGas - bscGas/256 })
 	c("gas-limit-just-inside-lower-bound", func(s *bscSpec) { s.GasLimit = bscGas - bscGas/256 + 1 })
 	c("gas-limit-below-minimum", func(s *bscSpec) { s.GasLimit = 4999 })
+	c("gas-limit-at-minimum", func(s *bscSpec) { s.GasLimit = 5000 })
 	c("gas-used-above-limit", func(s *bscSpec) { s.GasUsed = bscGas + 1 })
 	c("gas-used-equals-limit", func(s *bscSpec) { s.GasUsed = bscGas })
 	c("validator-bytes-where-not-allowed-or-misaligned", func(s *bscSpec) {
@@ -383,7 +388,15 @@ func CheckC17(tier string) int {
 		stateCap = 400000
 	}
 	exhaustive := true
-	for _, sc := range scen {
+	gasOf := make([]uint64, len(scen))
+	for i := range scen {
+		gasOf[i] = 30_000_000
+	}
+	scen = append(scen, bscScenario{2, 4})
+	gasOf = append(gasOf, 5010)
+	defer func() { bscGas = 30_000_000 }()
+	for si, sc := range scen {
+		bscGas = gasOf[si]
 		_, vals := sc.genesis()
 		gen, _ := sc.genesis()
 		g0 := bscGhost{Number: gen.Height.RevisionHeight, Vals: vals, Pending: vals, Signers: map[uint64]int{}, Epoch: sc.Epoch}
@@ -418,7 +431,12 @@ func CheckC17(tier string) int {
 					c := w.C(A)
 					ck := c.App.TIBCKeeper.ClientKeeper
 					for st := range jobs {
-						ctx, parent := sc.build(c, st.Hist)
+						ctx, parent, berr := sc.build(c, st.Hist)
+						if berr != nil {
+							// the same headers on the same trusted state gave another verdict than a moment ago
+							addF(sc, st, "verdict-on-a-header-chain-changed-between-two-executions", berr.Error(), "")
+							continue
+						}
 						before := world.DumpStore(ctx, "tibc", c.App.GetKey("tibc"), []byte("clients/"+bscName+"/"))
 						for _, s := range sc.menu(st) {
 							want := st.Ghost.expect(s)
@@ -506,14 +524,14 @@ func CheckC17(tier string) int {
 			frontier = next
 		}
 		states += scStates
-		perScenario[fmt.Sprintf("N=%d epoch=%d", sc.N, sc.Epoch)] = scStates
+		perScenario[fmt.Sprintf("N=%d epoch=%d gas=%d", sc.N, sc.Epoch, bscGas)] = scStates
 		fmt.Fprintf(os.Stderr, "[C17] N=%d epoch=%d: states=%d (total evaluations %d) (%.1fs)\n", sc.N, sc.Epoch, scStates, evals, time.Since(start).Seconds())
 	}
 	cov := map[string]any{
 		"states": states, "transitions": evals, "traces_validated_against_impl": evals,
 		"evaluations": evals, "distinct_nontrivial": accepts, "rule": "every header of the per-state alphabet is built with a real secp256k1 seal and submitted once; non-trivial = accepted headers (each also checked for the resulting client state)",
 		"accepted": accepts, "rejected": rejects, "states_per_scenario": perScenario, "samples": samples, "exhaustive": exhaustive,
-		"bounds": fmt.Sprintf("validator sets of %v members (epoch length alongside), chains of up to %d blocks past the trusted epoch block (4 blocks for sets above 5); per block: sealer = every current validator, every announced-but-not-yet-effective validator and an outsider x difficulty {2,1} x (at epoch blocks) announced set {same, plus one, one replaced, minus one}; single-field corruptions of a valid header: parent hash, number +-1, gas limit at / just inside both bounds and below 5000, gas used above / equal limit, validator bytes off an epoch block or misaligned, mix digest, uncle hash, coinbase != sealer, sealed by another key, difficulty 0 / 3; states merged by (height, validators, pending validators, sealers of the last blocks)", scen, blocks),
+		"bounds": fmt.Sprintf("validator sets of %v members (epoch length alongside), chains of up to %d blocks past the trusted epoch block (4 blocks for sets above 5); per block: sealer = every current validator, every announced-but-not-yet-effective validator and an outsider x difficulty {2,1} x (at epoch blocks) announced set {same, plus one, one replaced, minus one}; single-field corruptions of a valid header: parent hash, number +-1, gas limit at / just inside both bounds, at and below 5000 (also from a parent with gas limit 5010, where the step bound alone would allow it), gas used above / equal limit, validator bytes off an epoch block or misaligned, mix digest, uncle hash, coinbase != sealer, sealed by another key, difficulty 0 / 3; states merged by (height, validators, pending validators, sealers of the last blocks)", scen, blocks),
 	}
 	return report.Finish("C17", tier, start, "model_checking", cov, []string{
 		"Parlia reference: direct child of the latest header; sealer in the current set (size N) and not the sealer of any of the preceding floor(N/2) blocks; difficulty 2 iff sealer = sorted(validators)[number mod N], else 1; |gas limit - parent's| < parent's/256, gas limit >= 5000, gas used <= gas limit; validator bytes only on epoch blocks and a multiple of 20; the set announced at an epoch block becomes effective at the block whose number mod epoch = floor(N/2)",
